@@ -264,7 +264,13 @@ the field factories check the schema against the final field. -/
 many flattened fields its path goes through — resolves in the message the schema was built from
 to a field its schema describes**, or is the wrapper of an exposed oneof of the message the path
 ends in. `newPropSet`'s walk over them succeeds, and so does every kind check of the field
-factories (a list / map of `Any` excepted: open finding `any-in-collection`). -/
+factories (a list / map of `Any` excepted: open finding `any-in-collection`).
+
+Scope: the first four conjuncts (`ClientProperties()` succeeds, `ClientOK`, `resolveAll`) have no
+hypothesis beyond `linked`; the LAST conjunct (the field factories' checks) is conditional on
+`anyInCollection q.schema = false` per property — in that respect this is the `_partial` of
+`C18_codec_ok_full` (refuted by `C18_codec_ok_counterexample`). There is no `clientNamesOK`
+hypothesis here; client-name uniqueness is the separate `C18_client_names_partial`. -/
 theorem C18_codec_ok (ds : DescSet) (hl : linked ds = true) (reg : Reg)
     (h : schemaSetFromFiles ds = .ok reg) (e : REntry) (he : e ∈ reg) (p k : String)
     (en : Option (String × Int)) (am : List String) (ps : List RProp)
